@@ -83,10 +83,8 @@ class Stream:
             else:
                 flow_class = self.default_delimited_flow_class
 
-            if self.options.logical_type in (
-                jelly.LOGICAL_STREAM_TYPE_FLAT_TRIPLES,
-                jelly.LOGICAL_STREAM_TYPE_FLAT_QUADS,
-            ):
+            if issubclass(flow_class, BoundedFrameFlow):
+                # also the default flow of an unspecified logical type is bounded
                 flow = flow_class(
                     logical_type=self.options.logical_type,
                     frame_size=self.options.frame_size,
